@@ -1114,6 +1114,23 @@ func runC08(c *hx.Ctx) {
 				}
 			}
 			p.Steps = append(p.Steps, planStep{Kind: "append", Mut: "none"}, planStep{Kind: "latest", Mut: "none"})
+		case i >= 20 && i < 20+len(revisingKinds):
+			// the sweep: every corruption of every revising RPC on every run (the random
+			// plans draw corruptions at random and may miss a rare pair in 200 scenarios)
+			k := revisingKinds[i-20]
+			p.Flavor, p.Late, p.Settings = "rich", false, ""
+			p.Steps = []planStep{{Kind: "form", Mut: "none"}, {Kind: "append", Mut: "none"}, {Kind: "append", Mut: "none"}, {Kind: "append", Mut: "none"}, {Kind: "fund", Mut: "none"}}
+			for j, m := range kindMuts[k] {
+				if m == "toolong" && k != "fund" {
+					continue // (a thousand-entry term; once is enough)
+				}
+				p.Steps = append(p.Steps, planStep{Kind: k, Mut: m})
+				if j%6 == 5 {
+					p.Steps = append(p.Steps, planStep{Kind: k, Mut: "none"}, planStep{Kind: "append", Mut: "none"})
+				}
+			}
+			p.Steps = append(p.Steps, planStep{Kind: "latest", Mut: "none"})
+			c.Res.CountN("sweep:corruptions-of-"+k, len(kindMuts[k]))
 		case i >= 16 && i <= 19 && os.Getenv("VERIF_C08_BLOCK_BETWEEN_PHASES") == "1":
 			// opt-in (see checks/C08.json): the tip reaches the proof height while a
 			// two-phase revising RPC waits for the renter's signature
